@@ -532,3 +532,19 @@ func vBreakLineOrphansWidows() (int, []string) {
 //@   unclaimed call-*-pre* "box accessors on a laid-out line"
 //@   return 2 ensures[spaces-kept-only-when-preserved] !ok || !(ws == "normal" || ws == "nowrap" || ws == "pre-line")
 //@   call TrimRight#1 assert[only-spaces] arg1 == ' '
+
+// an earlier break inside a run of lines leaves at least `orphans` lines on the page and takes `widows` lines
+// to the next one (CSS 2.1 §13.3.3)
+//@ func findEarlierPageBreak
+//@   props C12
+//@   modifies anything
+//@   unclaimed call-*-pre* "box accessors on laid-out boxes"
+//@   assert after newChildren#2: len(newChildren) >= int(children[0].Box().Style.GetOrphans()) && len(children) - len(newChildren) == int(children[0].Box().Style.GetWidows())
+
+// CSS 2.1 §8.3.1: the bottom margin of every in-flow block that was laid out adjoins what follows it — also
+// when the block is collapsed through (its top and bottom margins then adjoin each other and the next sibling)
+//@ func inFlowLayout
+//@   props C10
+//@   modifies anything
+//@   unclaimed call-*-pre* "box accessors on laid-out boxes"
+//@   assert after skipStack#1: newChild_ != nil ==> len(*adjoiningMargins) >= 1 && (*adjoiningMargins)[len(*adjoiningMargins)-1] == pr.VV(newChild_.Box().MarginBottom)
